@@ -575,7 +575,9 @@ def unresolved_dispatch(repo: "Repo", where: str, depth: int = 3, needs: tuple =
                 r2 = _table_dispatch_in(sx.fn, _is_private(fn.name) and not (fn.name.startswith("__") and fn.name.endswith("__")))
             except Exception:
                 return r
-            return r2
+            if r2:
+                return r2
+            break       # resolved in the normal form -- or the helper was not dissolved at all: the check below says which
         if d >= depth:
             continue
         for n in ast.walk(f):
